@@ -1288,5 +1288,21 @@ func expandFamilies(lines []cline, c *Contracts, file string) ([]cline, error) {
 		out = append(out, lines[i])
 		i++
 	}
+	// macros may be used in any clause
+	for k := range out {
+		for round := 0; round < 4 && strings.Contains(out[k].s, "$("); round++ {
+			a := strings.Index(out[k].s, "$(")
+			b := strings.Index(out[k].s[a:], ")")
+			if b < 0 {
+				break
+			}
+			name := out[k].s[a+2 : a+b]
+			txt, ok := c.Macros[name]
+			if !ok {
+				return nil, fmt.Errorf("%s:%d: unknown macro %q", file, out[k].no, name)
+			}
+			out[k].s = out[k].s[:a] + "(" + txt + ")" + out[k].s[a+b+1:]
+		}
+	}
 	return out, nil
 }
